@@ -661,10 +661,24 @@ func checkAssertionFlow(c *core.Ctx) {
 			c.Unknown("ASSERT", key, 0, "anchor not found")
 			continue
 		}
-		info := fn.Info()
-		// the literal and its innermost enclosing loop
+		// the literal and its innermost enclosing loop; when a maintainer moved the overload resolution into a
+		// helper, the literal is looked for (and interpreted) there
 		var unit ast.Stmt
 		found := false
+		for _, cand := range helperClosure(p, fn) {
+			hasLit := false
+			ast.Inspect(cand.Decl.Body, func(nd ast.Node) bool {
+				if kv, ok := nd.(*ast.KeyValueExpr); ok && core.ExprStr(kv.Key) == "ExpressionType" && strings.HasSuffix(core.ExprStr(kv.Value), "ExpressionTypeTypeAssertion") {
+					hasLit = true
+				}
+				return true
+			})
+			if hasLit {
+				fn = cand
+				break
+			}
+		}
+		info := fn.Info()
 		core.WalkStack(fn.Decl.Body, func(nd ast.Node, stack []ast.Node) bool {
 			cl, ok := nd.(*ast.CompositeLit)
 			if !ok || found {
